@@ -58,9 +58,11 @@ class Registry:
         self.inline = set()
         self.models = {}
 
-    def contract(self, qualname, **kw):
+    def contract(self, qualname, variant=None, **kw):
+        """variant: several contracts of one function (e.g. one per concrete dims tuple), addressed as 'qualname@variant'"""
         c = Contract(qualname, **kw)
-        self.contracts[qualname] = c
+        c.variant = variant
+        self.contracts[qualname if variant is None else f"{qualname}@{variant}"] = c
         return c
 
     def get(self, qualname):
